@@ -1,6 +1,7 @@
 package main
 
 import (
+	"runtime/pprof"
 	"encoding/json"
 	"fmt"
 	"os"
@@ -20,12 +21,24 @@ func main() {
 	if len(os.Args) < 2 {
 		usage()
 	}
+	if p := os.Getenv("GOSYM_PROF"); p != "" {
+		f, _ := os.Create(p)
+		pprof.StartCPUProfile(f)
+		defer pprof.StopCPUProfile()
+		code := realMain()
+		pprof.StopCPUProfile()
+		os.Exit(code)
+	}
+	os.Exit(realMain())
+}
+
+func realMain() int {
 	switch os.Args[1] {
 	case "run":
 		if len(os.Args) < 4 {
 			usage()
 		}
-		os.Exit(cmdRun(os.Args[2], os.Args[3:]))
+		return cmdRun(os.Args[2], os.Args[3:])
 	case "check":
 		if len(os.Args) < 3 {
 			usage()
@@ -41,15 +54,16 @@ func main() {
 		if tier == "" {
 			tier = "quick"
 		}
-		os.Exit(cmdCheck(os.Args[2], tier))
+		return cmdCheck(os.Args[2], tier)
 	case "replay":
 		if len(os.Args) < 3 {
 			usage()
 		}
-		os.Exit(cmdReplay(os.Args[2]))
+		return cmdReplay(os.Args[2])
 	default:
 		usage()
 	}
+	return 2
 }
 
 func cmdRun(pattern string, funcs []string) int {
@@ -84,9 +98,9 @@ func cmdRun(pattern string, funcs []string) int {
 }
 
 func printResult(res *HarnessResult) {
-	fmt.Printf("== %s: paths=%d decisions=%d steps=%d infeasible=%d wall=%v solver: q=%d sat=%d unsat=%d unknown=%d t=%v\n",
+	fmt.Printf("== %s: paths=%d decisions=%d steps=%d infeasible=%d wall=%v solver: q=%d sat=%d unsat=%d unknown=%d t=%v wait=%v\n",
 		res.Name, res.Paths, res.Decisions, res.Steps, res.Infeasible, res.Wall.Round(1e6),
-		res.Solver.Queries, res.Solver.Sat, res.Solver.Unsat, res.Solver.Unknown, res.Solver.Time.Round(1e6))
+		res.Solver.Queries, res.Solver.Sat, res.Solver.Unsat, res.Solver.Unknown, res.Solver.Time.Round(1e6), res.Solver.Wait.Round(1e6))
 	var names []string
 	for n := range res.Obligations {
 		names = append(names, n)
